@@ -169,6 +169,8 @@ theorem noDial_step (hb : cfg.bgLocked = true) (s : St) (a : Act) (s' : St) (hi 
   | reconfClose t => obtain ⟨_, rfl⟩ := step_reconfClose h; exact hi t' (mv _ _ _ (by simp) hd)
   | reconfDialOk t => obtain ⟨_, rfl⟩ := step_reconfDialOk h; exact hi t' (mv _ _ _ (by simp) hd)
   | reconfDialFail t => obtain ⟨_, rfl⟩ := step_reconfDialFail h; exact hi t' (mv _ _ _ (by simp) hd)
+  | extClose t => obtain ⟨_, rfl⟩ := step_extClose h; exact hi t' hd
+  | swallow t => obtain ⟨_, _, _, _, _, _, _, rfl⟩ := step_swallow h; exact hi t' (mv _ _ _ (by simp) hd)
 
 /-- the conclusion of the no-loss theorems: every accepted send is queued, in progress on
     process(), or whole on a connection the peer did not cut -/
@@ -192,12 +194,12 @@ theorem no_loss_benign (hl : cfg.sendLocked = true) (acts : List Act) (s : St)
     (hb : ∀ a ∈ acts, a.benign = true) (h : run cfg bytesOf acts init = some s) : NothingLost bytesOf s := by
   have := run_inv cfg bytesOf (I := fun s => Core cfg bytesOf s ∧ HealthyInv bytesOf s) (fun a => a.benign = true)
     (fun s a s' hb hi h => ⟨core_step cfg bytesOf hl s a s' hi.1 h,
-      healthyInv_step cfg bytesOf s s' a (Or.inl hb) hi.1.mutex hi.1.bytes hi.2 h⟩)
+      healthyInv_step cfg bytesOf s s' a (Or.inl hb) (by cases a <;> simp_all [Act.benign, Act.isSwallow]) hi.1.mutex hi.1.bytes hi.2 h⟩)
     acts init s hb ⟨core_init cfg bytesOf, healthyInv_init bytesOf⟩ h
   exact nothingLost_of_healthy bytesOf this.2
 
 theorem no_loss_locked (hl : cfg.sendLocked = true) (hbg : cfg.bgLocked = true) (hac : cfg.acLocked = true)
-    (hpl : cfg.procLocked = true) (acts : List Act) (s : St)
+    (hpl : cfg.procLocked = true) (hrr : cfg.recoverReports = true) (acts : List Act) (s : St)
     (hh : Healthy acts) (h : run cfg bytesOf acts init = some s) : NothingLost bytesOf s := by
   have := run_inv cfg bytesOf
     (I := fun s => (Core cfg bytesOf s ∧ HealthyInv bytesOf s) ∧ NoDial s) (fun a => a.isFault = false)
@@ -205,10 +207,14 @@ theorem no_loss_locked (hl : cfg.sendLocked = true) (hbg : cfg.bgLocked = true) 
       refine ⟨⟨core_step cfg bytesOf hl s a s' hi.1.1 h, ?_⟩, noDial_step cfg bytesOf hbg s a s' hi.2 h⟩
       by_cases e : a = .bgDialOk
       · subst e; obtain ⟨hp, _⟩ := step_bgDialOk h; exact absurd hp (hi.2 0)
-      · refine healthyInv_step cfg bytesOf s s' a ?_ hi.1.1.mutex hi.1.1.bytes hi.1.2 h
+      · have hsw : a.isSwallow = false := by
+          cases a with
+          | swallow t => obtain ⟨_, _, _, _, hf', _⟩ := step_swallow h; rw [hrr] at hf'; cases hf'
+          | _ => rfl
+        refine healthyInv_step cfg bytesOf s s' a ?_ hsw hi.1.1.mutex hi.1.1.bytes hi.1.2 h
         cases hr : a.isReconf with
         | true => exact Or.inr ⟨hf, rfl, hac, hpl⟩
-        | false => exact Or.inl (by simp [Act.benign, hf, e, hr]))
+        | false => exact Or.inl (by simp [Act.benign, hf, e, hr, hsw]))
     acts init s hh ⟨⟨core_init cfg bytesOf, healthyInv_init bytesOf⟩, fun t => by simp [init, St.pc, AMap.get]⟩ h
   exact nothingLost_of_healthy bytesOf this.1.2
 
